@@ -161,7 +161,7 @@ struct OuterPlain {
     b: Vec<i64>,
 }
 
-pub const BASE_CALLS: [&str; 17] = [
+pub const BASE_CALLS: [&str; 18] = [
     "parse_ok_tree",
     "parse_fail_mid_anchor",
     "parse_fail_in_rc_anchor",
@@ -179,9 +179,10 @@ pub const BASE_CALLS: [&str; 17] = [
     "parse_fail_inside_recursive",
     "probe_missing_field_location",
     "probe_anchor_wrappers",
+    "parse_locationless_error_at_root",
 ];
 /// inner calls used for nesting
-pub const NEST_INNER: [usize; 7] = [0, 1, 2, 5, 6, 12, 14];
+pub const NEST_INNER: [usize; 8] = [0, 1, 2, 5, 6, 12, 14, 17];
 pub const OUTERS: [&str; 3] = ["outer_rc_sharing", "outer_missing_field_after_hook", "outer_alias_replay_budget"];
 
 pub fn n_calls() -> usize {
@@ -318,6 +319,8 @@ pub fn run_call(k: usize) -> String {
             let s: Result<String, de::value::Error> = String::deserialize("x".into_deserializer());
             format!("{} / {} / {} / {:?}", a, w, r, s.is_ok())
         }
+        // an error without a position of its own (the value 0 is refused by the target type, not by the parser)
+        17 => show(serde_saphyr::from_str::<std::num::NonZeroU8>("0")),
         k => {
             let j = k - BASE_CALLS.len();
             let outer = j / (NEST_INNER.len() + 1);
@@ -513,7 +516,7 @@ pub fn run(ctx: &Ctx) -> i32 {
     }
     let meta = Meta {
         level: "model_checking",
-        rule: "stateright BFS over all call histories up to the length bound over the call alphabet (17 base calls incl. failing / panicking / abandoned ones and two thread-local probes, plus 3 outer parses x (no nested call + 7 nested calls made from inside a user Deserialize impl)); every history is replayed on a fresh OS thread and its last call compared with the same call made first on a fresh thread; non-trivial = history of length >= 2".into(),
+        rule: "stateright BFS over all call histories up to the length bound over the call alphabet (18 base calls incl. failing / panicking / abandoned ones and two thread-local probes, plus 3 outer parses x (no nested call + 8 nested calls made from inside a user Deserialize impl)); every history is replayed on a fresh OS thread and its last call compared with the same call made first on a fresh thread; non-trivial = history of length >= 2".into(),
         exhaustive: true,
         bounds: json!({"max_history_len": max_len, "calls": n_calls()}),
         assumptions: vec!["a fresh OS thread has clean thread-locals; the library has no process-global mutable state (checked by grep in DESIGN.md §1)".into()],
